@@ -203,8 +203,10 @@ class CHECK(vlib.Check):
                 "no count word), DataUnflattener read/limit/clamp behaviour, ReadCString/SetCstr, duplicate-name and type-mismatch "
                 "handling, CalculateChecksum (inline and array forms, CalculatePODChecksum), operator==/FieldsAreSubsetOf/IsEqualTo "
                 "(all four inline/array cases), the Add/Prepend/Replace/RemoveData/RemoveName/Rename/Clear state transitions of the "
-                "field table and of the field representation (empty/inline/array).  Not modelled: the Queue ring buffer inside a field "
-                "array (C16), the Hashtable's buckets (C09), templated flattening (C03), object sharing/copy-on-write, "
+                "field table and of the field representation (empty/inline/array), MoveNameToFront/Back, CopyName, ReplaceFlat; the "
+                "templated codec (CreateMessageTemplate, TemplatedFlattenedSize/TemplatedFlatten/TemplatedUnflatten; the 'payload has "
+                "fewer items than the template' branch of TemplatedFlatten is not modelled).  Not modelled: the Queue ring buffer inside a field "
+                "array (C16), the Hashtable's buckets (C09), TemplateHashCode64 and the gateway's template cache (C03), object sharing/copy-on-write, "
                 "MurmurHash2 (a parameter of the theorems; the OCaml driver supplies it).")
     premises = ["memory safety and object lifetime of the C++ (observed by ASan/UBSan in the harness only)",
                 "strings and field names are NUL-free (finding F9: domain boundary of muscle::String; the model reproduces the truncation and "
